@@ -1,9 +1,11 @@
 package vh
 
 import (
+	"context"
 	"encoding/json"
 	"errors"
 	"fmt"
+	"os"
 	"reflect"
 	"sort"
 	"strconv"
@@ -14,9 +16,13 @@ import (
 	"github.com/elastic/go-libaudit/v2/aucoalesce"
 	"github.com/elastic/go-libaudit/v2/auparse"
 	"github.com/metal-toolbox/auditevent"
+	"go.uber.org/zap"
 	"pgregory.net/rapid"
 
+	"github.com/metal-toolbox/audito-maldito/ingesters/auditlog"
+	"github.com/metal-toolbox/audito-maldito/ingesters/namedpipe"
 	"github.com/metal-toolbox/audito-maldito/internal/common"
+	"github.com/metal-toolbox/audito-maldito/internal/health"
 	"github.com/metal-toolbox/audito-maldito/processors/auditd/sessiontracker"
 )
 
@@ -213,15 +219,21 @@ func execC14Read(c c14Case) Outcome {
 	}
 	evs := rig.rec.Events()
 	byTs := map[int]*auditevent.AuditEvent{}
+	genTs := map[int]bool{}
+	for _, ae := range all {
+		genTs[ae.TsIdx] = true
+	}
 	for _, e := range evs {
 		i := evIndexOf(e.Ev.LoggedAt)
-		if _, dup := byTs[i]; dup {
-			return fail("two UserActions with timestamp index %d", i)
+		if !genTs[i] || !e.Ev.LoggedAt.Equal(evTime(i)) {
+			return fail("a UserAction carries loggedAt %v, which is not the timestamp of any audit record in the stream; emitted %s", e.Ev.LoggedAt, evJSON(e.Ev))
 		}
 		byTs[i] = e.Ev
 	}
 	labels := []string{}
 	nt := false
+	missing := 0
+	firstIdentity := map[string]string{}
 	perSession := map[string]int{}
 	for _, ae := range all {
 		want, err := expectedRendering(ae)
@@ -230,17 +242,20 @@ func execC14Read(c c14Case) Outcome {
 		}
 		got, ok := byTs[ae.TsIdx]
 		if !ok {
-			return fail("no UserAction for %s event seq %d of session %s (lines %q)", ae.Type, ae.Seq, ae.Ses, ae.Lines)
+			// whether every event is emitted is C02's/C15's concern; only the
+			// rendering of what is emitted is judged here
+			missing++
+			continue
 		}
 		if err := checkRendering(got, want, evTime(ae.TsIdx), ae.Ses, ae.Success); err != nil {
 			return fail("%s event seq %d: %v; records %q; emitted %s", ae.Type, ae.Seq, err, ae.Lines, evJSON(got))
 		}
-		wantID := identityKey(l1copy)
-		if ae.Ses == sesString(2) {
-			wantID = identityKey(l2copy)
-		}
-		if identityKey(got) != wantID {
-			return fail("%s event seq %d carries identity %s, want %s", ae.Type, ae.Seq, identityKey(got), wantID)
+		// identity stability: all events of a session carry identical identity
+		// content (whose identity it must be is C01's concern)
+		if first, seen := firstIdentity[ae.Ses]; !seen {
+			firstIdentity[ae.Ses] = identityKey(got)
+		} else if identityKey(got) != first {
+			return fail("%s event seq %d of session %s carries identity %s, an earlier event of the same session carried %s", ae.Type, ae.Seq, ae.Ses, identityKey(got), first)
 		}
 		perSession[ae.Ses]++
 		if len(ae.Lines) > 1 && len(ae.Args) > 0 {
@@ -256,8 +271,8 @@ func execC14Read(c c14Case) Outcome {
 		}
 		labels = append(labels, "type:"+ae.Type)
 	}
-	if len(evs) != len(all) {
-		return fail("%d UserActions for %d audit events", len(evs), len(all))
+	if missing > 0 {
+		labels = append(labels, "some_events_not_emitted_(not_judged_here)")
 	}
 	for _, n := range perSession {
 		if n >= 5 {
@@ -709,3 +724,105 @@ func execC07Aud(c c07AudCase) Outcome {
 }
 
 func TestC07_AuditLine(t *testing.T) { RunProp(t, "c07.audit_line", genC07Aud, execC07Aud) }
+
+// C07 (audit half, real FIFO): records written to the audit pipe arrive at the
+// audit processor's input such that each parses to the same audit message as
+// the original line handed over directly.
+type c07AudFifoCase struct {
+	Events []audEvent `json:"events"`
+	Chunk  int        `json:"chunk"`
+}
+
+func genC07AudFifo(rt *rapid.T) c07AudFifoCase {
+	n := rapid.IntRange(1, 6).Draw(rt, "n")
+	c := c07AudFifoCase{Chunk: pick(rt, "chunk", []int{1, 17, 512, 4096, 1 << 16})}
+	for i := 0; i < n; i++ {
+		typ := pick(rt, "typ", []string{"SYSCALL", "SYSCALL", "USER_START", "CRED_DISP", "USER_CMD", "LOGIN"})
+		f := genAudFields(rt, typ, "501", "4242")
+		if typ == "SYSCALL" && rapid.IntRange(0, 2).Draw(rt, "big") == 0 {
+			// EXECVE argument lists run to several KiB (auditd's record limit is 8970 bytes)
+			f.Args = []string{"bigcmd"}
+			for a := rapid.IntRange(60, 150).Draw(rt, "nargs"); a > 0; a-- {
+				f.Args = append(f.Args, "--option="+strings.Repeat("v", 40))
+			}
+		}
+		c.Events = append(c.Events, buildAudEvent(typ, i+1, 9000+i, f))
+	}
+	return c
+}
+
+func execC07AudFifo(c c07AudFifoCase) Outcome {
+	dir, path, err := mkfifoDir()
+	if err != nil {
+		panic(&infraError{err.Error()})
+	}
+	defer os.RemoveAll(dir)
+	var lines []string
+	for _, e := range c.Events {
+		lines = append(lines, e.Lines...)
+	}
+	ch := make(chan string, len(lines)+8)
+	ctx, cancel := context.WithCancel(context.Background())
+	defer cancel()
+	ali := auditlog.NewAuditLogIngester(path, ch, namedpipe.NewNamedPipeIngester(zap.NewNop().Sugar(), health.NewHealth()))
+	done := make(chan error, 1)
+	go func() { done <- ali.Ingest(ctx) }()
+	w, err := os.OpenFile(path, os.O_WRONLY, 0)
+	if err != nil {
+		panic(&infraError{err.Error()})
+	}
+	stream := []byte(strings.Join(lines, "\n") + "\n")
+	if len(stream) > 3000 && c.Chunk < 17 {
+		c.Chunk = 17
+	}
+	for off := 0; off < len(stream); off += c.Chunk {
+		end := off + c.Chunk
+		if end > len(stream) {
+			end = len(stream)
+		}
+		if _, err := w.Write(stream[off:end]); err != nil {
+			break
+		}
+	}
+	w.Close()
+	// completion: all records handed downstream, or the ingester returned (how
+	// end-of-stream is reported is C12's concern)
+	deadline := time.Now().Add(20 * time.Second)
+	for len(ch) < len(lines) && time.Now().Before(deadline) {
+		select {
+		case <-done:
+			deadline = time.Now()
+		case <-time.After(200 * time.Microsecond):
+		}
+	}
+	cancel()
+	var got []string
+	for len(ch) > 0 {
+		got = append(got, <-ch)
+	}
+	if len(got) != len(lines) {
+		return fail("%d records written to the audit pipe, %d handed to the audit processor", len(lines), len(got))
+	}
+	long := false
+	for i, l := range lines {
+		if len(l) > 4096 {
+			long = true
+		}
+		a, errA := auparse.ParseLogLine(l)
+		b, errB := auparse.ParseLogLine(got[i])
+		if errA != nil {
+			panic(&infraError{"generated line does not parse: " + errA.Error()})
+		}
+		if errB != nil {
+			return fail("record %d arrives unparsable through the pipe (%v): got %q..., sent %q...", i, errB, head(got[i]), head(l))
+		}
+		da, _ := a.Data()
+		db, _ := b.Data()
+		if a.RecordType != b.RecordType || !a.Timestamp.Equal(b.Timestamp) || a.Sequence != b.Sequence || !reflect.DeepEqual(da, db) {
+			return fail("record %d (%d bytes) parses differently after travelling through the pipe: type %v/%v seq %d/%d; got %q..., sent %q...", i, len(l), a.RecordType, b.RecordType, a.Sequence, b.Sequence, head(got[i]), head(l))
+		}
+	}
+	return Outcome{NT: long, Labels: []string{fmt.Sprintf("long_record:%v", long)}}
+}
+
+func TestC07_AuditFifo(t *testing.T) { RunProp(t, "c07.audit_fifo", genC07AudFifo, execC07AudFifo) }
